@@ -46,6 +46,22 @@ BUILTIN_DERIVED = [
 ]
 
 
+def lambda_layout(rng, name):
+    """A named lambda at module level in the layouts found in real code."""
+    c = rng.random()
+    if c < 0.3:
+        return [f"{name} = lambda a: a"]
+    if c < 0.5:
+        return [f"{name} = (", "    lambda a, b=2: a * b", ")"]
+    if c < 0.65:
+        return [f"{name} = \\", "    lambda s: s"]
+    if c < 0.75:
+        return [f"{name} = (lambda a, key=(", "    lambda x: x),", "    other=3: key(a))"]
+    if c < 0.85:
+        return [f"{name} = lambda a: a; {name}_second = lambda b: b"]
+    return [f"{name} = (", "", "    lambda a: (", "        a + 1)", ")"]
+
+
 def layout(k, variant):
     """Where the SUT and the helper module live.  The helper's dotted name is a suffix / prefix /
     extension of the SUT's name in variants 1-5 (a filter on the defining module must be an exact
@@ -88,9 +104,9 @@ def gen_case(rng, k):
             L += ["@functools.lru_cache(maxsize=None)", f"def {fn}(a):", "    return a"]
         elif c < 0.22:
             L += [f"def {fn}(a):", "    yield a"]
-        elif c < 0.30:
-            L += [f"{fn} = lambda a: a"]
-        elif c < 0.36:
+        elif c < 0.34:
+            L += lambda_layout(rng, fn)
+        elif c < 0.38:
             L += [f"def {fn}(a):", "    def nested_inner(b):", "        return b", "    return nested_inner"]
         elif c < 0.42:
             L += ["if HELPER_FLAG:", f"    def {fn}(a):", "        return a"]
@@ -197,6 +213,13 @@ def gen_case(rng, k):
             "visibility": vis, "ignore_methods": ign, "ignore_modules": ign_mod}
 
 
+def fkey(f):
+    """Qualified name used as key of a function; lambdas are told apart by the line of the lambda
+    expression (they all share the name <lambda>)."""
+    q = f.__qualname__
+    return f"{q}@{f.__code__.co_firstlineno}" if q.endswith("<lambda>") else q
+
+
 def case_files(case):
     if "sut_path" in case:
         return {case["sut_path"]: case["sut"], **case["extra_files"]}
@@ -254,7 +277,7 @@ def run_impl(case, scratch: Path):
                 out.append(("method", t.__module__, t.__qualname__, o.method_name, getattr(fn, "__module__", None)))
             elif isinstance(o, GenericFunction):
                 fn = inspect.unwrap(o.callable)
-                out.append(("function", fn.__module__, fn.__qualname__, ""))
+                out.append(("function", fn.__module__, fkey(fn), ""))
             else:
                 out.append(("other", type(o).__name__, repr(o), ""))
         return sorted(out, key=repr), members, rt
@@ -276,7 +299,7 @@ def runtime_functions(mod, case):
     for bind, obj in list(vars(mod).items()):
         if inspect.isfunction(obj) or (isinstance(obj, functools._lru_cache_wrapper) and inspect.isfunction(inspect.unwrap(obj))):
             u = inspect.unwrap(obj)
-            out.append({"bind": bind, "name": obj.__name__, "module": obj.__module__, "qual": u.__qualname__,
+            out.append({"bind": bind, "name": obj.__name__, "module": obj.__module__, "qual": fkey(u),
                         "umodule": u.__module__,
                         "async": inspect.iscoroutinefunction(obj) or inspect.isasyncgenfunction(obj),
                         "listed": f"{u.__module__}.{u.__qualname__}" in ign})
@@ -343,7 +366,7 @@ def abstract_members(mod, case):
                         "reached": reached, "async": is_async(obj),
                         "listed": f"{f.__module__}.{f.__qualname__}" in ign,
                         "main_test": f.__qualname__.startswith(("main", "test")),
-                        "key": ("function", f.__module__, f.__qualname__, "")})
+                        "key": ("function", f.__module__, fkey(f), "")})
     return out
 
 
@@ -421,6 +444,13 @@ def oracle(case):
             if eligible(st.targets[0].id, vis):      # X = namedtuple('X', ...): a class of the module
                 must.add(("constructor", st.targets[0].id, ""))
             continue
+        if (isinstance(st, ast.Assign) and len(st.targets) == 1 and isinstance(st.targets[0], ast.Name)
+                and isinstance(st.value, ast.Lambda)):
+            # `name = lambda ...` is a function of the module called `name`, wherever the lambda
+            # expression starts (same line, parenthesised on a later line, after a backslash)
+            if eligible(st.targets[0].id, vis):
+                must.add(("function", f"<lambda>@{st.value.lineno}", ""))
+            continue
         if isinstance(st, ast.ClassDef):
             bases = [ast.unparse(b) for b in st.bases]
             is_enum = any(b.startswith("enum.") for b in bases)
@@ -475,7 +505,7 @@ def judge(case, observed, rt):
     sut = case["name"]
     for f in rt:
         key = ("function", f["qual"], "")
-        if f["name"] == "<lambda>" or f["qual"].endswith("<lambda>"):
+        if f["name"] == "<lambda>" or "<lambda>" in f["qual"]:
             o["free"].add(key)
         elif (f["module"] == sut and f["umodule"] == sut and eligible(f["name"], case["visibility"])
               and not f["async"] and not f["listed"]):
